@@ -23,15 +23,15 @@ import (
 // whole scheme through the internal package's exported API
 
 func drawCtx(rt *rapid.T) []byte {
-	switch rapid.IntRange(0, 9).Draw(rt, "ctx_kind") {
+	switch pick(rt, "ctx_kind", 10) {
 	case 0, 1, 2:
 		return []byte{}
 	case 3:
-		return gen.BytesN(rt, "ctx", 255)
+		return rbytes(rt, "ctx", 255)
 	case 4:
-		return gen.BytesN(rt, "ctx", 1)
+		return rbytes(rt, "ctx", 1)
 	}
-	return gen.BytesN(rt, "ctx", rapid.IntRange(1, 255).Draw(rt, "ctx_len"))
+	return rbytes(rt, "ctx", 1+pick(rt, "ctx_len", 255))
 }
 
 func ctxClass(c []byte) string {
@@ -62,12 +62,12 @@ func TestScheme(t *testing.T) {
 		detrand.Seed(rapid.Uint64().Draw(rt, "entropy"))
 		p := drawSet(rt, 15)
 		n := p.n()
-		skSeed := gen.BytesN(rt, "skseed", n)
-		skPrf := gen.BytesN(rt, "skprf", n)
-		pkSeed := gen.BytesN(rt, "pkseed", n)
+		skSeed := rbytes(rt, "skseed", n)
+		skPrf := rbytes(rt, "skprf", n)
+		pkSeed := rbytes(rt, "pkseed", n)
 		msg := gen.Bytes(rt, "msg", 1024)
 		ctx := drawCtx(rt)
-		route := rapid.SampledFrom([]string{"keygen", "decode"}).Draw(rt, "route")
+		route := sample(rt, "route", []string{"keygen", "decode"})
 		cs := fmt.Sprintf("%s SK.seed=%s SK.prf=%s PK.seed=%s M=%s ctx=%s key-route=%s", p.name, hx(skSeed), hx(skPrf), hx(pkSeed), hx(msg), hx(ctx), route)
 
 		// keys
@@ -101,7 +101,7 @@ func TestScheme(t *testing.T) {
 			rt.Fatalf("%s: Sign failed: %v", cs, terr)
 		}
 		// out-of-range context: both sides refuse
-		long := gen.BytesN(rt, "longctx", 256+rapid.IntRange(0, 3).Draw(rt, "longctx_extra"))
+		long := rbytes(rt, "longctx", 256+pick(rt, "longctx_extra", 4))
 		_, e1 := tsk.SignDeterministic(msg, long)
 		_, e2 := tsk.Sign(msg, long)
 		_, e3 := p.r.Sign(msg, long, rsk, nil)
@@ -127,7 +127,7 @@ func TestScheme(t *testing.T) {
 		try("fresh deterministic signature", p, rpk, msg, sigDet, ctx, true)
 		try("fresh hedged signature", p, rpk, msg, sigRnd, ctx, true)
 
-		bit := func(label string) int { return rapid.IntRange(0, 8*n-1).Draw(rt, label) }
+		bit := func(label string) int { return pick(rt, label, 8*n) }
 		flipAt := func(kind string, off int, b int) {
 			try(fmt.Sprintf("%s: bit %d of the n-byte block at offset %d flipped", kind, b, off), p, rpk, msg, flipBit(sigDet, 8*off+b), ctx, false)
 		}
@@ -136,29 +136,29 @@ func TestScheme(t *testing.T) {
 		flipAt("R", 0, bit("rbit2"))
 		// FORS: three drawn trees, secret value and one authentication path node each
 		for i := 0; i < 3; i++ {
-			tree := rapid.IntRange(0, p.r.K-1).Draw(rt, "forstree")
+			tree := pick(rt, "forstree", p.r.K)
 			base := n + tree*(1+p.r.A)*n
 			flipAt(fmt.Sprintf("FORS tree %d secret value", tree), base, bit("forsskbit"))
-			lvl := rapid.IntRange(0, p.r.A-1).Draw(rt, "forslevel")
+			lvl := pick(rt, "forslevel", p.r.A)
 			flipAt(fmt.Sprintf("FORS tree %d auth node %d", tree, lvl), base+(1+lvl)*n, bit("forsauthbit"))
 		}
 		// hypertree: every layer, one WOTS+ chain value and one authentication path node
 		htBase := n + p.forsLen()
 		for layer := 0; layer < p.r.D; layer++ {
 			base := htBase + layer*p.xmssLen()
-			chain := rapid.IntRange(0, p.len()-1).Draw(rt, "wotschain")
+			chain := pick(rt, "wotschain", p.len())
 			flipAt(fmt.Sprintf("HT layer %d WOTS+ chain %d", layer, chain), base+chain*n, bit("wotsbit"))
-			lvl := rapid.IntRange(0, p.r.HPrime-1).Draw(rt, "authlevel")
+			lvl := pick(rt, "authlevel", p.r.HPrime)
 			flipAt(fmt.Sprintf("HT layer %d auth node %d", layer, lvl), base+(p.len()+lvl)*n, bit("authbit"))
 		}
-		try("first byte changed", p, rpk, msg, flipBit(sigDet, rapid.IntRange(0, 7).Draw(rt, "firstbit")), ctx, false)
-		try("last byte changed", p, rpk, msg, flipBit(sigDet, 8*(len(sigDet)-1)+rapid.IntRange(0, 7).Draw(rt, "lastbit")), ctx, false)
+		try("first byte changed", p, rpk, msg, flipBit(sigDet, pick(rt, "firstbit", 8)), ctx, false)
+		try("last byte changed", p, rpk, msg, flipBit(sigDet, 8*(len(sigDet)-1)+pick(rt, "lastbit", 8)), ctx, false)
 		// lengths
 		try("signature minus last byte", p, rpk, msg, sigDet[:len(sigDet)-1], ctx, false)
 		try("signature minus first byte", p, rpk, msg, sigDet[1:], ctx, false)
-		try("signature plus one byte", p, rpk, msg, append(append([]byte{}, sigDet...), rapid.Byte().Draw(rt, "extra")), ctx, false)
+		try("signature plus one byte", p, rpk, msg, append(append([]byte{}, sigDet...), byte(pick(rt, "extra", 256))), ctx, false)
 		try("signature minus last n bytes", p, rpk, msg, sigDet[:len(sigDet)-n], ctx, false)
-		try("signature plus n bytes", p, rpk, msg, append(append([]byte{}, sigDet...), gen.BytesN(rt, "extran", n)...), ctx, false)
+		try("signature plus n bytes", p, rpk, msg, append(append([]byte{}, sigDet...), rbytes(rt, "extran", n)...), ctx, false)
 		try("empty signature", p, rpk, msg, []byte{}, ctx, false)
 		// message
 		mm := gen.Mutate(rt, "msgmut", msg)
@@ -178,8 +178,8 @@ func TestScheme(t *testing.T) {
 		try("public key minus last byte", p, rpk[:len(rpk)-1], msg, sigDet, ctx, false)
 		try("public key plus one byte", p, append(append([]byte{}, rpk...), 0), msg, sigDet, ctx, false)
 		// other byte strings of signature length
-		try("drawn bytes of signature length", p, rpk, msg, gen.BytesN(rt, "rndsig", len(sigDet)), ctx, false)
-		try("R || drawn bytes", p, rpk, msg, append(append([]byte{}, sigDet[:n]...), gen.BytesN(rt, "rndtail", len(sigDet)-n)...), ctx, false)
+		try("drawn bytes of signature length", p, rpk, msg, rbytes(rt, "rndsig", len(sigDet)), ctx, false)
+		try("R || drawn bytes", p, rpk, msg, append(append([]byte{}, sigDet[:n]...), rbytes(rt, "rndtail", len(sigDet)-n)...), ctx, false)
 		try("hedged R with deterministic body", p, rpk, msg, append(append([]byte{}, sigRnd[:n]...), sigDet[n:]...), ctx, false)
 		// same key bytes and signature under the other hash family (equal sizes)
 		try("verified under the sibling parameter set", p.sibling(), rpk, msg, sigDet, ctx, false)
@@ -286,12 +286,12 @@ func TestVerifyRandomDigests(t *testing.T) {
 		case "external-drawn":
 			external(gen.Bytes(rt, "m", 300), c.sig, drawCtx(rt))
 		case "external-context-shift":
-			k := rapid.IntRange(0, len(c.ctx0)-1).Draw(rt, "k")
+			k := pick(rt, "k", len(c.ctx0))
 			external(append(append([]byte{}, c.ctx0[k:]...), c.m0...), c.sig, c.ctx0[:k])
 		case "R-replaced", "R-bit-flipped":
-			r := gen.BytesN(rt, "r", n)
+			r := rbytes(rt, "r", n)
 			if kind == "R-bit-flipped" {
-				r = flipBit(c.sig[:n], rapid.IntRange(0, 8*n-1).Draw(rt, "rbit"))
+				r = flipBit(c.sig[:n], pick(rt, "rbit", 8*n))
 			}
 			sigDesc = fmt.Sprintf("SIG = that signature with R replaced by %x", r)
 			h = h.B(r)
@@ -333,8 +333,8 @@ func TestTinkAPI(t *testing.T) {
 		detrand.Seed(rapid.Uint64().Draw(rt, "entropy"))
 		p := drawSet(rt, 10)
 		n := p.n()
-		variant := rapid.SampledFrom([]string{tk.Tink, tk.NoPrefix}).Draw(rt, "variant")
-		route := rapid.SampledFrom([]string{"handle", "key", "generated"}).Draw(rt, "route")
+		variant := sample(rt, "variant", []string{tk.Tink, tk.NoPrefix})
+		route := sample(rt, "route", []string{"handle", "key", "generated"})
 		id := gen.KeyID(rt, "id")
 		if variant == tk.NoPrefix {
 			id = 0
@@ -380,7 +380,7 @@ func TestTinkAPI(t *testing.T) {
 			signer = tk.Must(signature.NewSigner(h))
 			verifier = tk.Must(signature.NewVerifier(tk.Must(h.Public())))
 		default:
-			rsk, rpk = p.r.KeyGenInternal(gen.BytesN(rt, "skseed", n), gen.BytesN(rt, "skprf", n), gen.BytesN(rt, "pkseed", n))
+			rsk, rpk = p.r.KeyGenInternal(rbytes(rt, "skseed", n), rbytes(rt, "skprf", n), rbytes(rt, "pkseed", n))
 			priv, err := slhdsa.NewPrivateKey(tk.Secret(rsk), id, params)
 			if err != nil {
 				rt.Fatalf("%s: NewPrivateKey(%x, %d): %v", p.name, rsk, id, err)
@@ -439,7 +439,7 @@ func TestTinkAPI(t *testing.T) {
 			try("prefix missing", raw, msg)
 			try("prefix of id+1", append(tk.Prefix(tk.Tink, id+1), raw...), msg)
 			try("CRUNCHY/LEGACY-style prefix", append(tk.Prefix(tk.Crunchy, id), raw...), msg)
-			try("prefix bit flipped", flipBit(sig, rapid.IntRange(0, 39).Draw(rt, "prefixbit")), msg)
+			try("prefix bit flipped", flipBit(sig, pick(rt, "prefixbit", 40)), msg)
 			try("prefix twice", append(append([]byte{}, prefix...), sig...), msg)
 			try("prefix only", prefix, msg)
 		} else {
@@ -451,7 +451,7 @@ func TestTinkAPI(t *testing.T) {
 		try("message "+mm.Kind, sig, mm.Out)
 		sm := gen.Mutate(rt, "sigmut", sig)
 		try("signature "+sm.Kind, sm.Out, msg)
-		try("raw signature bit flipped", flipBit(sig, 8*len(prefix)+rapid.IntRange(0, 8*len(raw)-1).Draw(rt, "rawbit")), msg)
+		try("raw signature bit flipped", flipBit(sig, 8*len(prefix)+pick(rt, "rawbit", 8*len(raw))), msg)
 
 		evid.Add("verify_candidates", int64(ncand))
 		evid.Add("accepted_candidates", int64(naccept))
